@@ -403,6 +403,21 @@ func (f *FakeReg) serveCDN(w http.ResponseWriter, r *http.Request) {
 	}
 	w.Header().Set("Content-Length", strconv.Itoa(len(part)))
 	w.WriteHeader(status)
+	if ft != nil && ft.Act == "stall-mid" && len(part) > 1 {
+		// deliver a first piece, then nothing for Code seconds (the client gives a part up after 30 s without
+		// progress and asks again from where it got to), then the rest to whoever is still listening
+		k := 1 + int(ft.Arg)%(len(part)-1)
+		w.Write(part[:k])
+		if fl, ok := w.(http.Flusher); ok {
+			fl.Flush()
+		}
+		select {
+		case <-time.After(time.Duration(ft.Code) * time.Second):
+		case <-r.Context().Done():
+		}
+		w.Write(part[k:])
+		return
+	}
 	w.Write(part)
 }
 
